@@ -24,7 +24,12 @@ var recSeq = ev.New("C16", "proxy-sequences",
 		"Non-trivial: at least 2 requests forwarded with pipelining window >= 2 and (a request body or a Connection-nominated field). Distinct key: methods, body kinds, length classes, statuses, end kind, window class, auth class").
 	Require("pipelined", "req-body", "req-chunked", "req-trailers", "nominated-present", "upgrade-present", "proxy-auth-present",
 		"auth-enabled", "auth-enabled-no-users", "auth-users-nil", "auth-users-empty", "auth-users-several", "bad-then-good", "host-change", "later-connect", "close-req", "close-resp", "interim", "interim-delivered", "expect-got-100",
-		"head", "resp-chunked", "resp-close-delimited", "depth>16", "3xx", "origin-truncate", "origin-close-silent", "client-abort", "never-authenticated", "origin-closed-idle-connection")
+		"head", "resp-chunked", "resp-close-delimited", "depth>16", "3xx", "origin-truncate", "origin-close-silent", "client-abort", "never-authenticated", "origin-closed-idle-connection",
+		// round 6
+		"tls", "tls-no-auth", "tls+auth", "tls+auth-rejected", "tls+auth-accepted", "tls-client-cert-valid", "tls-client-cert-missing", "tls-client-cert-untrusted",
+		"expect-strict-got-100", "interim-before-delayed-final", "103-before-delayed-final",
+		"3xx-no-location", "3xx-multi-location", "location-malformed", "location-relative", "location-on-non-3xx", "3xx-other-host", "other-host-location-must-not-close", "continued-after-other-host-location",
+		"host-change-while-response-outstanding")
 
 func lenClass(n int) string {
 	switch {
@@ -97,6 +102,34 @@ func classify(p *plan, e *expectation, o *obs) (key string, nt bool, labels []st
 		}
 		if r.Expect {
 			lab["expect"] = true
+			if r.ExpectStrict {
+				lab["expect-strict"] = true
+				if o.StrictGot[e.Reqs[k].Idx] {
+					lab["expect-strict-got-100"] = true
+				}
+			}
+		}
+		// an interim response that reached the client while the origin was still pausing before the final one
+		if start, delayed := o.FinalStartAt[k]; delayed {
+			lab["final-delayed"] = true
+			for j := range e.Resps {
+				if x := &e.Resps[j]; x.ReqIdx == e.Reqs[k].Idx && x.Interim && x.Must && j < len(o.ClientAt) && o.ClientAt[j] < start {
+					lab["interim-before-delayed-final"] = true
+					if x.Status == 103 {
+						lab["103-before-delayed-final"] = true
+					}
+				}
+			}
+		}
+	}
+	// request for another host (or CONNECT) completely written while the previous response was still outstanding
+	if s := e.EndAt; s > e.FirstFwd && e.FirstFwd >= 0 {
+		if wr, ok := o.ReqWrittenAt[s]; ok {
+			for j := range e.Resps {
+				if x := &e.Resps[j]; x.ReqIdx == s-1 && !x.Interim && x.Must && j < len(o.ClientAt) && o.ClientAt[j] > wr {
+					lab[e.EndKind+"-while-response-outstanding"] = true
+				}
+			}
 		}
 	}
 	for i := range o.Got100 {
@@ -153,7 +186,7 @@ func classify(p *plan, e *expectation, o *obs) (key string, nt bool, labels []st
 	if p.Window > 16 {
 		wc = "w17+"
 	}
-	fmt.Fprintf(&kb, "|%s|%s|auth=%v,%d,%d", e.EndKind, wc, p.AuthEnabled, p.UserTable, e.FirstFwd)
+	fmt.Fprintf(&kb, "|%s|%s|auth=%v,%d,%d|tls=%v,%d", e.EndKind, wc, p.AuthEnabled, p.UserTable, e.FirstFwd, p.TLS, p.ClientCert)
 	nt = pipelined && (body || nominated)
 	for l := range lab {
 		labels = append(labels, l)
@@ -169,20 +202,21 @@ func journalPath() string {
 	return filepath.Join(w, fmt.Sprintf("journal-c16-%d.json", os.Getpid()))
 }
 
-// runCase executes one plan and returns the violation text ("" = held).
-func runCase(t *testing.T, p *plan, rec *ev.Recorder) string {
+// runPlan executes one plan (journaled, so that a crash of the code under test leaves a replay)
+// and judges it; msg is the violation text ("" = held).
+func runPlan(t *testing.T, p *plan) (msg string, e *expectation, o *obs, v *verdict) {
 	jp := journalPath()
 	if jp != "" {
 		if b, err := json.Marshal(p); err == nil {
 			_ = os.WriteFile(jp, b, 0o644)
 		}
 	}
-	e := model(p)
-	o := execute(t, p)
+	e = model(p)
+	o = execute(t, p)
 	if jp != "" {
 		_ = os.Remove(jp)
 	}
-	v := judge(p, e, o)
+	v = judge(p, e, o)
 	if v.sig != "" {
 		pj, _ := json.Marshal(p)
 		ps := string(pj)
@@ -192,7 +226,16 @@ func runCase(t *testing.T, p *plan, rec *ev.Recorder) string {
 		if len(ps) > 4000 {
 			ps = ps[:4000] + "...(clipped; the rapid fail file replays the whole case)"
 		}
-		return fmt.Sprintf("SIG=C16/%s %s\norigin received:\n%s\nclient received:\n%s\nplan=%s", v.sig, v.detail, clip(o.OriginRaw), clip(o.ClientRaw), ps)
+		msg = fmt.Sprintf("SIG=C16/%s %s\norigin received:\n%s\nclient received:\n%s\nplan=%s", v.sig, v.detail, clip(o.OriginRaw), clip(o.ClientRaw), ps)
+	}
+	return msg, e, o, v
+}
+
+// runCase executes one plan and returns the violation text ("" = held).
+func runCase(t *testing.T, p *plan, rec *ev.Recorder) string {
+	msg, e, o, v := runPlan(t, p)
+	if msg != "" {
+		return msg
 	}
 	if rec != nil {
 		for _, k := range v.known {
